@@ -1,5 +1,5 @@
 \* C05 non-vacuity: a serialiser that waits for the whole body deadlocks against a lock-step producer
-CONSTANTS M = 3 N = 2 MaxAttempts = 3 MaxFail = 0 StaleReader = FALSE LockStep = TRUE BufferAll = TRUE
+CONSTANTS M = 3 N = 2 MaxAttempts = 3 MaxFail = 0 StaleReader = FALSE LockStep = TRUE BufferAll = TRUE Timers = {}
 SPECIFICATION Spec
 CHECK_DEADLOCK FALSE
 PROPERTIES Streams
